@@ -273,6 +273,32 @@ var c08HSpec = &HSpec{ID: "C08",
 				}
 			}
 		}
+		// re-cloning must be transparent: a failed update (the working copy is
+		// thrown away and deep-copied from the root again) at every position of
+		// histories in which the two clients' edits are concurrent and one of
+		// them is undone - the copy then has to resolve later remote changes
+		// exactly like the root (seeded change C08-2: a copy that loses a
+		// position timestamp marshals identically and decides LWW differently)
+		rec := []struct {
+			name string
+			init []string
+			als  [][]string
+		}{
+			{"obj", []string{"init.oo"}, [][]string{{"o.del1", "o.set1"}, {"o.set1", "o.setobj1"}, {"o.del1", "o.setin1"}}},
+			{"arr", []string{"init.a"}, [][]string{{"a.delL", "a.mv0L"}, {"a.mv0L", "a.ins0"}, {"a.del0", "a.setL"}}},
+			{"txt", []string{"init.t"}, [][]string{{"t.delM", "t.insM"}, {"t.delF", "t.styF"}}},
+			{"tree", []string{"init.tr"}, [][]string{{"tr.delP0", "tr.insT1"}, {"tr.delT0", "tr.sty0"}}},
+			{"cnt", []string{"init.c"}, [][]string{{"c.inc1"}}},
+		}
+		for _, f := range rec {
+			for i, al := range f.als {
+				if tier == "quick" && i > 0 && f.name != "obj" {
+					continue
+				}
+				out = append(out, &hist.Scenario{Name: fmt.Sprintf("c08/reclone/%s/%s/N2K2max1U1F1Y2", f.name, strings.Join(al, "+")),
+					N: 2, Init: f.init, Alphabet: al, K: 2, MaxPerClient: 1, U: 1, F: 1, Y: 2, Cfg: hist.Config{Threshold: hist.Big, Interval: hist.Big}})
+			}
+		}
 		return out
 	},
 	Eval: func(r *hist.Runner, sc *hist.Scenario, h []hist.Event, res *Result) ([]hist.Violation, bool) {
@@ -289,7 +315,7 @@ var c08HSpec = &HSpec{ID: "C08",
 		}
 		var viol []hist.Violation
 		for _, v := range x.Viol {
-			if v.Kind == "clone-ne-root" || v.Kind == "panic" || v.Kind == "harness" {
+			if v.Kind == "clone-ne-root" || v.Kind == "panic" || v.Kind == "harness" || v.Kind == "failed-update" {
 				viol = append(viol, v)
 			}
 		}
